@@ -129,6 +129,7 @@ impl Prop for C09 {
             let cb = *rng.pick(&["csvdump", "csvdump", "unspentcsvdump", "balances", "simplestats", "opreturn"]);
             let mut r = RunSpec::new(cb);
             r.verify = true;
+            r.verbosity = *rng.pick(&[0u8, 0, 0, 1, 2]);
             r.threads = pick_threads(rng);
             r.plan = benign_plan(rng);
             let t = nb as u64 - 1;
@@ -209,6 +210,7 @@ impl Prop for C09 {
         let real_genesis = g.is_some() && w % 2 == 0;
         let mut base = RunSpec::new(if w % 3 == 0 { "unspentcsvdump" } else { "csvdump" });
         base.verify = true;
+        base.verbosity = [0u8, 0, 1, 2][(w % 4) as usize];
         base.threads = 2;
         base.start = if real_genesis { None } else { Some(1) };
         let s = base.start.unwrap_or(0);
